@@ -2495,7 +2495,15 @@ void mmd_export_footnote_list_html(DString * out, const char * source, scratch_p
 			// Export footnote
 			pad(out, 2, scratch);
 
-			printf("<li id=\"fn:%d\">\n", i + 1);
+			// The id must be the anchor the calls link to, which is renamed when random anchors are requested
+			int anchor = i + 1;
+
+			if (scratch->extensions & EXT_RANDOM_FOOT) {
+				srand(scratch->random_seed_base + anchor);
+				anchor = rand() % 32000 + 1;
+			}
+
+			printf("<li id=\"fn:%d\">\n", anchor);
 			scratch->padded = 6;
 
 			note = stack_peek_index(scratch->used_footnotes, i);
